@@ -126,6 +126,26 @@ class Collector:
         }
 
 
+class Filtered:
+    """Collector proxy: a check for another property re-uses a workload and reports only its own clauses."""
+
+    def __init__(self, real, only):
+        object.__setattr__(self, "_real", real)
+        object.__setattr__(self, "_only", only)
+
+    def __getattr__(self, k):
+        return getattr(self._real, k)
+
+    def __setattr__(self, k, v):
+        setattr(self._real, k, v)
+
+    def violation(self, p, mech, w, r):
+        if self._only is None or mech in self._only:
+            self._real.violation(p, mech, w, r)
+        else:
+            self._real.counters["other_clause:" + mech] += 1
+
+
 class ScriptChooser:
     """Replays recorded picks (labels); falls back to the first candidate when the script runs out."""
 
@@ -178,6 +198,8 @@ def sample_of(case, v):
 def pick_op(rng, spec, ids, selections):
     if not selections or rng.random() < 0.35:
         return {"kind": "call"}
+    if any(fs.get("tag") in ids for fs in spec["fns"].values()):
+        return {"kind": "call"}  # a tag spelled like a node id: the id strings used below would denote the tagged nodes
     g = S.site_graph(spec)
     n = len(ids)
     op = {"kind": "executor"}
@@ -219,8 +241,23 @@ def reconfigure(rng, sp, d, ids, mc_max):
     uses = {}
     for nd in sp["nodes"]:
         uses[nd["fn"]] = uses.get(nd["fn"], 0) + 1
+    all_tags = sorted({fs["tag"] for fs in sp["fns"].values() if fs.get("tag") is not None})
+    by_tag = set()
+    if all_tags and rng.random() < 0.6:
+        # configuration BY TAG: every node carrying the tag is re-configured (and a node whose id merely equals the tag is not)
+        t = rng.choice(all_tags)
+        c = {}
+        if rng.random() < 0.6:
+            c["is_sequential"] = rng.random() < 0.6
+        if not c or rng.random() < 0.5:
+            c["priority"] = rng.choice([-3, 0, 2, 6, 9])
+        for fn, fs in sp["fns"].items():
+            if fs.get("tag") == t:
+                fs.update(c)
+                by_tag.add(fn)
+        nodes_conf[t] = c
     for i, nd in enumerate(sp["nodes"]):
-        if uses[nd["fn"]] != 1 or rng.random() > 0.4:
+        if uses[nd["fn"]] != 1 or rng.random() > 0.4 or nd["fn"] in by_tag or ids[i] in all_tags:
             continue
         c = {}
         if rng.random() < 0.75:
@@ -314,7 +351,7 @@ def job_sched(j):
             import warnings
 
             g0 = S.site_graph(sp)
-            sinks = [ids[i] for i in range(len(ids)) if g0.out_degree(i) == 0]
+            sinks = [d.get_node_by_id(ids[i]) for i in range(len(ids)) if g0.out_degree(i) == 0]  # references: ids may be spelled like tags
             sp2 = copy.deepcopy(sp)
             sp2["mc"] = rng.randint(1, j.get("gen", {}).get("mc_max", 4))
             kwc = {"max_concurrency": sp2["mc"]}
